@@ -106,6 +106,10 @@ func (h *killedHandler) cleanupIfNotRestarting() {
 		ActorRef: h.ctx.ref,
 		Type:     reflect.TypeOf(h.ctx.actor),
 	})
+
+	// 因故障被挂起（failed / 监管暂停指令）后被终止的 Actor，其邮箱仍处于暂停状态：
+	// 已排队及之后经由旧引用到达的普通消息将永远滞留、不会进入死信。终止后恢复邮箱，使其排空为死信。
+	h.ctx.mailbox.Resume()
 }
 
 // cleanupScheduler 清理调度器
